@@ -295,6 +295,21 @@ mk B22; d=$D
 edit "$d/stats/alg.go" 's.replace("\t\tif fmid == flow {\n\t\t\tlow = mid\n\t\t\tflow = fmid", "\t\tif fmid != flow {\n\t\t\tlow = mid\n\t\t\tflow = fmid")'
 expect B22 "$d" C07 tie_failed tie_bisectBool
 
+echo "== H13 harmless: grow doubles with k *= 2 instead of k <<= 1"
+mk H13; d=$D
+edit "$d/graph/graphalg/marks.go" 's.replace("\t\tk <<= 1", "\t\tk *= 2")'
+expect H13 "$d" C18 ok
+
+echo "== B23 breaking: grow's loop is for k <= n (defect D11 again)"
+mk B23; d=$D
+edit "$d/graph/graphalg/marks.go" 's.replace("\tfor k < n {", "\tfor k <= n {")'
+expect B23 "$d" C18 tie_failed tie_NodeMarks_grow
+
+echo "== B24 breaking: Next starts the word scan at the word of i instead of the next one"
+mk B24; d=$D
+edit "$d/graph/graphalg/marks.go" 's.replace("for bi := (i / 32) + 1; bi < len(m.marks); bi++ {", "for bi := (i / 32); bi < len(m.marks); bi++ {")'
+expect B24 "$d" C18 tie_failed tie_NodeMarks_Next
+
 if [ $FULL = 1 ]; then
   echo "== full check on B1: both ties report (correspondence finds a failing input)"
   out=$(VERIF_REPO="$B1" bin/check C13 quick 2>&1); rc=$?
